@@ -1202,6 +1202,179 @@ impl Check for C14 {
 }
 
 // ===========================================================================
+// C09 strict arm — the protection of C09 also holds with flags.strict on (twin runs)
+
+/// The reference model covers non-strict mode only; the lockstep arm of C09 validates the non-strict
+/// machine against it. This arm runs the same adversarial scenario on a second machine that differs
+/// only in `flags.strict` and requires, for every step that starts in user mode with checks on:
+/// a step the non-strict twin refuses (AccessViolation / PrivilegeViolation, or vectored to the OS
+/// exception handler under real traps) is refused the same way by the strict twin — a strictness
+/// error may take its place only where it is raised before the access is attempted
+/// (StrictMemAddrUninit, StrictPCCurrUninit) — and the strict twin reaches no device the
+/// non-strict twin did not reach, and leaves memory and buffers as the non-strict twin did.
+pub struct C09S;
+impl C09S {
+    fn run(&self, scn: &MScn, out: &mut Outcome) -> Option<Violation> {
+        let objs = match assemble_all(scn) {
+            Some(o) => o,
+            None => {
+                out.bump("harness.unbuildable");
+                return None;
+            }
+        };
+        let mk = |strict: bool| {
+            let mut s = scn.clone();
+            s.flags.strict = strict;
+            build_on_with(&s, scn.entropy, objs.clone())
+        };
+        let (mut n, mut s) = match (mk(false), mk(true)) {
+            (Ok(Ok(a)), Ok(Ok(b))) => (a, b),
+            (Err(p), _) | (_, Err(p)) => return Some(Violation { class: "panic-in-setup".into(), step: 0, detail: p }),
+            _ => {
+                out.bump("harness.unbuildable");
+                return None;
+            }
+        };
+        let mut fp = Fp::new();
+        let mut steps = 0u64;
+        let mut refused_in_sync = 0u64;
+        let fail = |st: u64, c: &str, d: String| Some(Violation { class: c.to_string(), step: st, detail: d });
+        let prot = |r: &Result<(), &'static str>| matches!(r, Err("AccessViolation") | Err("PrivilegeViolation"));
+        let nonpoll = |l: &[Rec]| -> Vec<Rec> { l.iter().filter(|r| matches!(r, Rec::Read { .. } | Rec::Write { .. })).cloned().collect() };
+        'ops: for op in &scn.ops {
+            let k = match op {
+                Op::Step(k) => *k,
+                other => {
+                    let _ = guarded(|| exec_op(&mut n, other));
+                    let _ = guarded(|| exec_op(&mut s, other));
+                    continue;
+                }
+            };
+            for _ in 0..k {
+                steps += 1;
+                let pc = n.sim.pc;
+                let pre_user_checked = !n.sim.psr().privileged() && !n.sim.flags.ignore_privilege;
+                let instr = if (0x3000..0xFE00).contains(&pc) { Some(n.sim.mem[pc].get()) } else { None };
+                let _ = (n.log.take(), s.log.take());
+                let rn = match guarded(|| n.sim.step_in()) {
+                    Ok(r) => r.map_err(|e| err_kind(&e)),
+                    Err(p) => return fail(steps, "panic-in-step", p),
+                };
+                let rs = match guarded(|| s.sim.step_in()) {
+                    Ok(r) => r.map_err(|e| err_kind(&e)),
+                    Err(p) => return fail(steps, "panic-in-step", p),
+                };
+                let (ln, ls) = (n.log.take(), s.log.take());
+                let _ = (n.sim.observer.take_mem_accesses().count(), s.sim.observer.take_mem_accesses().count());
+                fp.add_str(rs.err().unwrap_or("ok"));
+                let irq = ln.iter().chain(ls.iter()).any(|r| matches!(r, Rec::Poll { res: PollRes::Vect(..) | PollRes::External, .. }));
+                // did the non-strict twin refuse this step?
+                let vectored = scn.flags.real_traps
+                    && pre_user_checked
+                    && !irq
+                    && rn.is_ok()
+                    && n.sim.psr().privileged()
+                    && instr.map(|w| w >> 12 != 0xF).unwrap_or(true)
+                    && (n.sim.pc == n.sim.mem[0x0100].get() || n.sim.pc == n.sim.mem[0x0102].get())
+                    && n.sim.pc != n.sim.mem[0x0101].get();
+                let n_refused = pre_user_checked && (prot(&rn) || vectored);
+                let strict_err = matches!(rs, Err(k) if is_strict_err(k));
+                if pre_user_checked && !irq {
+                    // device reach
+                    let (dn, ds) = (nonpoll(&ln), nonpoll(&ls));
+                    let reach_ok = if strict_err { ds.len() <= dn.len() && ds[..] == dn[..ds.len()] } else { ds == dn };
+                    if !reach_ok {
+                        return fail(steps, "strict-device-reach", format!("user-mode step at x{pc:04X} (word {instr:04X?}): strict twin made device calls {ds:?}, non-strict twin {dn:?} (results {rs:?} / {rn:?})"));
+                    }
+                    if n.host.kb_contents() != s.host.kb_contents() || n.host.shown() != s.host.shown() {
+                        return fail(steps, "strict-device-reach", format!("user-mode step at x{pc:04X}: buffers differ between the twins (results {rs:?} / {rn:?})"));
+                    }
+                }
+                if n_refused {
+                    out.bump("probe.refused-in-sync");
+                    if let Err(k) = rs {
+                        if is_strict_err(k) && !matches!(k, "StrictMemAddrUninit" | "StrictPCCurrUninit") {
+                            return fail(steps, "strict-masks-violation", format!("user-mode step at x{pc:04X} (word {instr:04X?}) is refused by the non-strict machine ({}), the strict machine reports {k} instead", if vectored { "vectored to the exception handler".to_string() } else { format!("{rn:?}") }));
+                        }
+                    }
+                    if !strict_err {
+                        let same = rs == rn && s.sim.pc == n.sim.pc && s.sim.psr().get() == n.sim.psr().get();
+                        if !same {
+                            return fail(steps, "strict-changed-protection-result", format!("user-mode step at x{pc:04X} (word {instr:04X?}): non-strict {rn:?} pc x{:04X} psr x{:04X}, strict {rs:?} pc x{:04X} psr x{:04X}", n.sim.pc, n.sim.psr().get(), s.sim.pc, s.sim.psr().get()));
+                        }
+                        refused_in_sync += 1;
+                        // the refused access left the strict machine as it left the non-strict one
+                        for a in 0..=0xFFFFu16 {
+                            if n.sim.mem[a] != s.sim.mem[a] {
+                                return fail(steps, "strict-refused-changed-memory", format!("after the refused step at x{pc:04X}: mem[x{a:04X}] = x{:04X} (strict) vs x{:04X} (non-strict)", s.sim.mem[a].get(), n.sim.mem[a].get()));
+                            }
+                        }
+                    }
+                } else if pre_user_checked && !irq && prot(&rs) {
+                    return fail(steps, "strict-changed-protection-result", format!("user-mode step at x{pc:04X} (word {instr:04X?}): strict machine reports {rs:?}, non-strict {rn:?}"));
+                }
+                if strict_err {
+                    out.bump("fired.garbage-read");
+                    break 'ops;
+                }
+                // any other difference is C14's business: stop comparing
+                let in_sync = rn == rs && n.sim.pc == s.sim.pc && n.sim.psr().get() == s.sim.psr().get() && (0..8).all(|k| n.sim.reg_file[reg(k)] == s.sim.reg_file[reg(k)]);
+                if !in_sync {
+                    out.bump("harness.foreign-divergence");
+                    break 'ops;
+                }
+                if rn.is_err() && !scn.flags.real_traps {
+                    break 'ops;
+                }
+            }
+        }
+        out.sim_time = steps * 2;
+        out.trace = fp.0;
+        if refused_in_sync > 0 {
+            out.fingerprint = Some(fp.0 ^ 0x5);
+        }
+        None
+    }
+}
+impl Check for C09S {
+    type Scn = MScn;
+    fn id(&self) -> &'static str {
+        "C09s"
+    }
+    fn meta(&self) -> Meta {
+        Meta {
+            rule: "strict arm of C09 (twin runs differing only in flags.strict)",
+            components_real: &["Simulator::step_in in both modes", "devices"],
+            components_stub: &["ClockDev/ScriptDev/Contended"],
+            assumptions: &[],
+            level: "exploration",
+            enumerated: "none",
+        }
+    }
+    fn quick_runs(&self) -> u64 {
+        10_000
+    }
+    fn entropy(&self, s: &MScn) -> u64 {
+        s.entropy
+    }
+    fn generate(&self, r: &mut Rng, _t: Tier, _i: u64) -> MScn {
+        let mut s = gen_adversarial(r);
+        s.flags.ignore_privilege = false;
+        s.profile = "C09-strict".into();
+        s
+    }
+    fn execute(&self, s: &MScn) -> Outcome {
+        let mut out = Outcome::default();
+        let v = self.run(s, &mut out);
+        out.violation = v;
+        out
+    }
+    fn shrink(&self, s: &MScn) -> Vec<MScn> {
+        shrink_mscn(s)
+    }
+}
+
+// ===========================================================================
 // C31 — seeded simulations are reproducible (twin runs under different ambient entropy)
 
 pub struct C31;
